@@ -141,6 +141,10 @@ def transcript(xml: Path, scratch: Path, tag: str, config) -> list:
             warnings.simplefilter('ignore')
             lw = wn.Wordnet(lexicon, expand=expand, lemmatizer=m1)
         put(['lemmatized', [_ids(lw.words(str(wd.lemma()) + 's')) for wd in w.words()[:6]]])
+        # queries whose candidate lemmas (a set per part of speech) all exist
+        for q in sorted({str(wd.lemma()) + sfx for wd in w.words()[:8] for sfx in ('s', 'es')}):
+            put(['lemmatized-query', q, _ids(lw.words(q)), _ids(lw.senses(q)),
+                 _ids(lw.synsets(q)), _ids(lw.senses(q, pos='n'))])
     return T
 
 
